@@ -21,7 +21,7 @@ ASSUMPTIONS = ["assignment means setattr / augmented assignment through the obje
                "(object.__setattr__ and __dict__ poking bypass any Python class and are out of scope)"]
 GATES = ["attempts", "existing_public", "existing_private", "property_names", "fresh_names", "augmented",
          "unknown_stub_messages", "msm_messages", "string_messages", "oversize_messages", "threaded_cases",
-         "threaded_switches"]
+         "threaded_switches", "via_constructor", "via_static_parser", "via_reader"]
 
 FRESH = ("foo", "DF9999", "newattr", "x", "Payload", "IDF999", "NSatellites", "identity_", "a_01", "DF002_01")
 VALUES = (0, 1, -1, 3.5, "x", "", None, b"\x00", [], {}, True, 2**70)
@@ -62,7 +62,24 @@ def run_case(ctx, payload, labelmsm, seedtag, nattempts, tag):
     rng = random.Random(seedtag)
     params = {"payload": payload.hex(), "labelmsm": labelmsm, "seedtag": seedtag, "n": nattempts, "tag": tag}
     try:
-        m = RTCMMessage(payload=payload, labelmsm=labelmsm)
+        how = seedtag % 3 if 2 <= len(payload) <= 1023 else 0
+        if how == 0:
+            m = RTCMMessage(payload=payload, labelmsm=labelmsm)
+        elif how == 1:  # message obtained from the static frame parser
+            from pyrtcm import RTCMReader
+
+            from vf import refcrc
+
+            m = RTCMReader.parse(refcrc.frame(payload), labelmsm=labelmsm)
+        else:  # message obtained from a stream reader
+            import io
+
+            from pyrtcm import RTCMReader
+
+            from vf import refcrc
+
+            m = next(iter(RTCMReader(io.BytesIO(refcrc.frame(payload)), labelmsm=labelmsm, quitonerror=2)))[1]
+        ctx.hit(("via_constructor", "via_static_parser", "via_reader")[how])
     except Exception:
         ctx.hit("unparseable_skipped")
         return
